@@ -807,6 +807,15 @@ def _judge_victim(out, side, direction, v, vstream, intact_expect, first_bad, se
     return False
 
   is_closed = closed or (side == "ctl" and (v.sock.closed or v.handle not in selected))
+  if side == "sw" and closed and not v.sock.closed and not v.sock.shutdowns and not getattr(v.sock, "eof", False) \
+      and v.sock.recv_error is None and not getattr(v.sock, "fatal", False):
+    # "that one connection is closed" has to reach the socket: the receiver has decided to drop the connection
+    # (IOWorker.shutdown()/close() was called) but, with the loop quiescent, its socket is neither closed nor shut
+    # down -- the peer is never told, the garbage stays at the head of the buffer and nothing more is ever processed
+    out.fail("close-not-carried-out", "the %s side decided to close the victim connection (at stream offset %d, %s) but its socket was "
+             "neither closed nor shut down: the connection stays open and stalled, the peer is not told" % (side, pos, cause),
+             side=side, cause=cause)
+    return
   outcome = "all-delivered"
   for f in frames:
     if f[0] in delivered:
